@@ -69,8 +69,10 @@ class Bounds:
             bs = [self.ub(x, b, r, depth + 1) for x in t[1]]
             return None if any(x is None for x in bs) else max(bs)
         if k == 'bin':
-            a, c = self.ub(t[2], b, r, depth + 1), self.ub(t[3], b, r, depth + 1)
             op = t[1]
+            if op in ('Gt', 'Lt', 'Ge', 'Le', 'Eq', 'Ne'):
+                return 1        # a comparison used as an integer (usize::from(bool), `as usize`): false = 0, true = 1
+            a, c = self.ub(t[2], b, r, depth + 1), self.ub(t[3], b, r, depth + 1)
             if op in ('Div', 'Sub', 'Rem'):
                 return a if op != 'Rem' else (c if c is not None else a)
             if op == 'Shr':
@@ -108,6 +110,13 @@ class Bounds:
                 return USIZE_MAX
             if m in ('len', 'try_get_len') or c == 'len':
                 return A2_LEN
+            if t[1] in self.F.bodies and self.F.bodies[t[1]].is_closure():
+                if t[2] and t[2][0][0] == 'closure':
+                    # a crate closure applied to known arguments: its value in the terms of the enclosing function
+                    rr = self.ctx.opa.run(t[1], list(t[2]))
+                    if rr.ret is not None and rr.ret != TOP and rr.ret != t:
+                        return self.ub(rr.ret, b, r, depth + 1)
+                return None
             if t[1] in self.F.bodies:
                 return self.ub_fn(t[1], depth + 1)
             return None
@@ -310,6 +319,12 @@ class Bounds:
             if t[1] in self.F.bodies and len(t[2]) == 2 and self.is_ceil_div(t[1]):
                 # lemma: a >= 1 and b >= 1  ==>  a/b + [a mod b > 0] >= 1
                 return self.lb1(t[2][0], b, r, pc, depth + 1) and self.lb1(t[2][1], b, r, pc, depth + 1)
+            if t[1] in self.F.bodies and self.F.bodies[t[1]].is_closure() and t[2] and t[2][0][0] == 'closure':
+                # a crate closure applied to known arguments: its value in the terms of the enclosing function
+                rr = self.ctx.opa.run(t[1], list(t[2]))
+                if rr.ret is not None and rr.ret != TOP and rr.ret != t:
+                    return self.lb1(rr.ret, b, r, pc, depth + 1)
+                return False
             if t[1] in self.F.bodies:
                 return self.lb1_fn(t[1], t[2], b, r, pc, depth + 1)
             return False
@@ -365,6 +380,10 @@ class Bounds:
                     return {'Lt': 1, 'Ne': 1, 'Eq': -1, 'Ge': -1}.get(op)
                 return None
             tests = [d for (d, tg) in r0.switches.values() if polarity(d) is not None]
+            if not tests and r0.ret is not None and r0.ret[0] == 'bin' and r0.ret[1] == 'Add':
+                # branch-free spelling: q + usize::from(rem > 0)  /  q + (rem != 0) as usize
+                x, y = r0.ret[2], r0.ret[3]
+                ok = (x == q and polarity(y) == 1) or (y == q and polarity(x) == 1)
             if len(tests) == 1:
                 tst = tests[0]
                 res_ = {}
@@ -899,6 +918,11 @@ def chunk_cap_failures(ctx, B, name, depth=0, seen=None, known=1):
                     return
                 fails.extend(sub)
                 return
+        if pay[0] == 'call' and pay[1] in F.bodies and F.bodies[pay[1]].is_closure() and pay[2] and pay[2][0][0] == 'closure':
+            # a crate closure applied to known arguments (Option::map_or(len, default, |len| ..)): its value in the caller's terms
+            rr = ctx.opa.run(pay[1], list(pay[2]))
+            if rr.ret is not None and rr.ret != TOP and rr.ret != pay:
+                return check(rr.ret, pc)
         if pay[0] == 'phi':
             if B.ub(pay, b, r) is not None:
                 return
